@@ -20,7 +20,23 @@ def build_corpus(tier, seed):
         nrand = 3000
         complete = len(a) == ta and len(b) == tb
     rc = corpus.random_cases(nrand, seed, start_id=len(a) + len(b) + 1, shells=("bash", "zsh"), depth=5, max_leaves=64)
-    return a + b + rc, ta + tb, complete
+    # states that differ only in the `||` levels (or descriptions) of otherwise identical continuations must stay apart; states
+    # equivalent to the start state must merge with it
+    fam = []
+    shapes = [
+        [("alt", [("seq", [L("get"), ("fb", [L("fast"), L("slow")])]), ("seq", [L("put"), ("fb", [L("slow"), L("fast")])])])],
+        [("sub", [L("--sort="), ("alt", [("seq", [L("asc:"), ("fb", [L("name"), L("size")])]), ("seq", [L("desc:"), ("fb", [L("size"), L("name")])])])])],
+        [("alt", [("seq", [L("x"), ("alt", [L("p", "one"), L("q")])]), ("seq", [L("y"), ("alt", [L("p"), L("q", "two")])])])],
+        [("seq", [("opt", L("-v")), ("many", ("opt", L("-v")))])],
+        [("many", ("opt", gen.R("FILE")))], [("seq", [gen.R("FILE"), ("many", ("opt", gen.R("FILE")))])],
+        [("alt", [("opt", ("seq", [L("add"), gen.R("FILE")])), ("many", ("opt", ("seq", [L("add"), gen.R("FILE")])))])],
+        [("seq", [("sub", [("opt", L("a,")), ("many", ("opt", L("a,")))]), L("end")])],
+        [("alt", [("seq", [L("a"), ("fb", [L("b"), L("c"), L("d")])]), ("seq", [L("e"), ("fb", [L("c"), L("b"), L("d")])]), ("seq", [L("f"), ("fb", [L("b"), L("c"), L("d")])])])],
+    ]
+    for vs in shapes:
+        c = gen.case(vs, [], shell="bash")
+        fam.append(corpus.finish(c, len(a) + len(b) + len(rc) + len(fam) + 1, origin="family"))
+    return a + b + rc + fam, ta + tb, complete
 
 
 def numeric(d):
